@@ -230,6 +230,22 @@ def run(ctx):
             ctx.node_bad("R3", ext, loop if loop is not None else c,
                          "the worker does not use every line of its slice as a root")
 
+    # parallel branch: the roots are partitioned over the workers (premises of the partition lemma, shared with C16-R1)
+    from . import c16
+    from .. import report as _report
+
+    sub = _report.Ctx("C16", ctx.repo, ctx.tier, ctx.data)
+    c16._r1(sub, f)
+    for ob in sub.obligations:
+        new_ob = dict(ob)
+        new_ob["rule"] = "R3"
+        new_ob["instance"] = "parallel roots (C16-R1): " + ob["instance"]
+        ctx.obligations.append(new_ob)
+    for fd in sub.findings:
+        ctx.obligations.pop(next(i for i, o in enumerate(ctx.obligations) if o.get("key") == fd.key))
+        ctx.bad("R3", "parallel roots (C16-R1): " + fd.construct, fd.where, "not every kernel line is a search root in the "
+                "multi-process search: " + fd.detail, fd.scope, fd.construct)
+
     # ---------------------------------------------------------------- R4 canonical identity
     ctx.rule("R4", "de-duplication key built from the sorted member list")
     adds = pm.find("M_set.add(M_key)", f.node)
@@ -372,7 +388,10 @@ def run(ctx):
                     "no selection of the maximum-latency cycle found", q, "selection missing")
             continue
         for n, b in hits:
-            good = pm.match("M_v = max(M_d, key=lambda M_k: M_d[M_k]['latency'])", n) is not None
+            good = any(pm.match(pat, n) is not None for pat in (
+                "M_v = max(M_d, key=lambda M_k: M_d[M_k]['latency'])",
+                "M_v = sorted(M_d, key=lambda M_k: M_d[M_k]['latency'])[-1]",
+                "M_v = sorted(M_d, key=lambda M_k: M_d[M_k]['latency'], reverse=True)[0]"))
             v, d = U(b["M_v"]), U(b["M_d"])
             uses = pm.find("M_s = %s[%s]['latency']" % (d, v), fr.node)
             guard = any(pol and U(e) == d for e, pol in C.facts_at(n))
@@ -388,10 +407,7 @@ def run(ctx):
                 ctx.node_bad("R7", fr, n, "the LCD figure must be the latency of max(dict, key=latency), "
                              "computed only for a non-empty dict, defaulting to 0.0 (max-form=%s, latency "
                              "read=%s, non-empty guard=%s, default 0.0=%s)" % (good, bool(uses), guard, default_ok))
-    if len(sel_sites) == 2:
-        ctx.check(sel_sites[0][1] == sel_sites[1][1], "R7", "text and dict use the same selection", "",
-                  "text report and dict select the longest cycle differently: %s vs %s" % (
-                      sel_sites[0][1], sel_sites[1][1]), "Frontend", "selection expressions differ")
+    # (that text and dict pick the SAME cycle among equal maxima is an obligation of C13-R1)
     # LCD column members come from the selected entry
     cv = ctx.func("Frontend.combined_view")
     col = pm.find("M_l = {M_i.line_number: M_lat for M_i, M_lat in M_d[M_v]['dependencies']}", cv.node)
